@@ -46,8 +46,49 @@ def ceilings(tier):
     return {'unsupported_or_ambiguous': 0.08}
 
 
+# features of a statement that have nothing to do with the constant, but decide which output path the renderer takes for
+# the whole statement (its own compilation, or - by default - the tree's own SQL string when it gives up)
+COMPANIONS = {
+    'window': 'row_number() OVER (ORDER BY a)',
+    'window-frame': 'sum(a) OVER (PARTITION BY b ORDER BY c rows BETWEEN unbounded preceding AND current row)',
+    'window-partition-only': 'max(a) OVER (PARTITION BY b)',
+    'cast-unknown-type': 'CAST(a AS foo)',
+    'cast': 'CAST(a AS int)',
+    'colon-cast': 'a::text',
+    'tuple-operand': '(a, b) = (1, 2)',
+    'multi-arg-aggregate': 'count(a, b)',
+    'distinct-aggregate': 'count(DISTINCT a)',
+    'placeholder': '?',
+    'placeholder-aliased': '? AS p',
+    'latest': 'LATEST',
+    'interval': "INTERVAL '1 day'",
+    'case': 'CASE WHEN a = 1 THEN 2 ELSE 3 END',
+    'case-operand': 'CASE a WHEN 1 THEN 2 END',
+    'exists': 'EXISTS (SELECT 1 FROM t2)',
+    'scalar-subselect': '(SELECT max(x) FROM t2)',
+    'between': 'a BETWEEN 1 AND 2',
+    'function-from-arg': 'extract(year FROM d)',
+    'substring-from-for': 'substring(s FROM 1 FOR 2)',
+    'star': '*',
+    'qualified-star': 't1.*',
+    'variable': '@v',
+    'not-in-list': 'a NOT IN (1, 2)',
+    'is-null': 'a IS NOT NULL',
+    'concat-operator': "a || b",
+    'unary-minus': '-a',
+    'json-like-function': "json_extract(a, '$.k')",
+    'nested-function': 'coalesce(nullif(a, 0), abs(b), 1)',
+}
+
+
 def build(pos, value):
     from mindsdb_sql.parser import ast as A
+    if '+' in pos:
+        from mindsdb_sql import parse_sql
+        base, comp = pos.split('+', 1)
+        tree = build(base, value)
+        tree.targets.append(parse_sql(f'SELECT {COMPANIONS[comp]} FROM t1', 'mindsdb').targets[0])
+        return tree
     c = A.Constant(value)
     if pos == 'select':
         c.alias = A.Identifier('c1')
@@ -79,13 +120,15 @@ def build(pos, value):
 _render = {}
 
 
-def render(output, tree):
+def render(output, tree, default_call=False):
     from mindsdb_sql.render.sqlalchemy_render import SqlalchemyRender
     if output == 'to_string':
         return tree.to_string()
     r = _render.get(output)
     if r is None:
         r = _render[output] = SqlalchemyRender(output)
+    if default_call:
+        return r.get_string(tree)           # the default call: gives the tree's own string when the renderer gives up
     return r.get_string(tree, with_failback=False)
 
 
@@ -135,7 +178,7 @@ def check_value(output, pos, v, benign_cache):
     if key not in benign_cache:
         marker = MARK if isinstance(v, str) else 424242 if isinstance(v, (int, float)) and not isinstance(v, bool) else v
         try:
-            bt = render(output, build(pos, marker))
+            bt = render(output, build(pos, marker), '+' in pos)
         except Exception as e:
             benign_cache[key] = ('unsupported', type(e).__name__)
         else:
@@ -149,7 +192,7 @@ def check_value(output, pos, v, benign_cache):
     if b[0] == 'unsupported':
         return 'skip', None
     try:
-        ht = render(output, build(pos, v))
+        ht = render(output, build(pos, v), '+' in pos)
     except Exception as e:
         from sqlalchemy.exc import SQLAlchemyError
         if isinstance(e, (SQLAlchemyError, NotImplementedError)):
@@ -294,6 +337,7 @@ def run_shard(ctx):
         typed.append(r.choice([r.randint(-10 ** 12, 10 ** 12), r.uniform(-1e6, 1e6), r.uniform(-1, 1) * 10 ** r.randint(-12, 18)]))
     benign = {}
     idx = run_sequences(ctx, -1)
+    idx = run_companions(ctx, idx, benign)
     for vi, v in enumerate(values + typed):
         for pos in POSITIONS:
             for output in OUTPUTS:
@@ -351,6 +395,46 @@ def run_shard(ctx):
                 sig = {'output': output, 'failure': k, 'value_class': vclass(w)}
                 d2 = check_value(output, pos, w, benign)[1] if isinstance(v, str) else det
                 acc.fail(sig, {'value': repr(v), 'shrunk': repr(w), 'position': pos, **(d2 if isinstance(d2, dict) else {})})
+
+
+def run_companions(ctx, idx, benign):
+    """The constant inside statements with one further feature each, through the renderer's DEFAULT call."""
+    acc = ctx.acc
+    vals = INJECTION + CONTROL + ['plain', "it's", 'a\\b', "\\'", "''", 'x\\', '%s', ':p', 'a;b', '--', '/*', "\n'", 7, 2.5, True, None]
+    for comp in COMPANIONS:
+        for base in ('select', 'where'):
+            pos = base + '+' + comp
+            for output in OUTPUTS[1:]:
+                paths = {}
+                for v in vals:
+                    idx += 1
+                    if not ctx.mine(idx):
+                        continue
+                    if ctx.out_of_time():
+                        return idx
+                    acc.ev()
+                    try:
+                        k, det = check_value(output, pos, v, benign)
+                    except Exception as e:
+                        acc.fail({'output': output, 'failure': 'default-call-raises:' + type(e).__name__, 'companion': comp}, {'value': repr(v), 'error': str(e)[:200]})
+                        continue
+                    if k == 'skip':
+                        acc.count('unsupported_or_ambiguous')
+                        continue
+                    acc.count('checked_with_companion')
+                    acc.add('companions', comp)
+                    b = benign.get((output, pos, type(v).__name__ if not isinstance(v, str) else 'str'))
+                    try:
+                        path = 'own-string-fallback' if b and b[0] in ('ok', 'no-marker') and b[-1] == build(pos, MARK if isinstance(v, str) else 424242 if isinstance(v, (int, float)) and not isinstance(v, bool) else v).to_string() else 'compiled'
+                    except Exception:
+                        path = 'unknown'
+                    acc.add('paths', path)
+                    if path == 'own-string-fallback':
+                        acc.add('companions_taking_fallback', comp)
+                    if k is not None:
+                        acc.fail({'output': output, 'failure': k, 'value_class': vclass(v), 'companion': comp, 'path': path},
+                                 {'value': repr(v), 'position': pos, **(det if isinstance(det, dict) else {})})
+    return idx
 
 
 EQUAL_VALUED = [1, True, 1.0, 0, False, 0.0, -1, -1.0, 7, 7.0, 2 ** 31, float(2 ** 31), '1', '1.0', 'True', '', None]
